@@ -155,4 +155,27 @@ def fprintFault12 (ver : Version) (c : MemoCfg) (m : Memo) (sink : Sink) (s : PS
     | .error p => some (.error p)
     | .ok raw => some (.ok (⟨raw.w.sink.accepted, raw.w.sink.bytesWritten, raw.err, pr.pulled, raw.w.sink.calls⟩, m'))
 
+/-- v1 / v2: the feeds of all ranges under a writer that never fails (every range run to its
+end), threading the memoizer state -/
+def fprintFeeds12 (c : MemoCfg) : Memo → Val12 → List PRange → Option (Memo × List (List (Nat × Nat)))
+  | m, _, [] => some (m, [])
+  | m, v, r :: rs =>
+    match v.apply (.withStart r.start) with
+    | some (.ok v1) =>
+      match v1.apply (.withEnd r.stop) with
+      | some (.ok v2) =>
+        let full := spec12Iterate c m v2.spec v2.start.toNat ((r.stop - r.start).toNat + 2)
+        match fprintFeeds12 c full.1 v rs with
+        | none => none
+        | some (m'', fs) => some (m'', full.2 :: fs)
+      | _ => none
+    | _ => none
+
+/-- `Fprint(w, s, p, options…)` of v1 / v2 after option processing (plain run) -/
+def fprint12 (ver : Version) (c : MemoCfg) (m : Memo) (sink : Sink) (s : PSettings) (v : Val12)
+    (ranges : List PRange) : Option (Except Panic PrintResult) :=
+  match fprintFeeds12 c m v ranges with
+  | none => none
+  | some (_, feeds) => some (printRun ver sink (positionsEnd ranges) s feeds)
+
 end Sqroot.Model
